@@ -46,6 +46,8 @@ func allStores(fn *ssa.Function) []*ssa.Store {
 }
 
 func runInputContract(r *core.Run) {
+	affineInlineExported = true
+	defer func() { affineInlineExported = false }()
 	for _, ct := range cursorTypes {
 		name := ct.typ
 		if ct.rel != "" {
@@ -289,6 +291,8 @@ func peekFacts(b *ssa.BasicBlock, cr *cursorRoles, recv string) []Fact {
 }
 
 func runPeekRune(r *core.Run) {
+	affineInlineExported = true
+	defer func() { affineInlineExported = false }()
 	obs := 0
 	for _, ct := range cursorTypes {
 		name := ct.typ
